@@ -242,11 +242,13 @@ func (s *socket) onError(err error) {
 func (s *socket) schedulePing() {
 	s.pingIntervalTimer.Store(utils.SetTimeout(func() {
 		socket_log.Debug("writing ping packet - expecting pong within %dms", int64(s.server.Opts().PingTimeout()/time.Millisecond))
-		s.sendPacket(packet.PING, nil, nil, nil)
+		// arm the timeout before the ping leaves: a pong processed before the timeout
+		// exists would not clear it and the session would expire regardless
+		s.resetPingTimeout()
 		if verifhook.Enabled {
 			verifhook.Point("socket.ping.between", s)
 		}
-		s.resetPingTimeout()
+		s.sendPacket(packet.PING, nil, nil, nil)
 	}, s.server.Opts().PingInterval()))
 }
 
